@@ -48,7 +48,7 @@ def floors(tier):
         "comparisons": {"parameter_values": 60, "parameter_cov_mat": 60, "parameter_errors": 60, "parameter_cor_mat": 40, "goodness_of_fit": 60, "cost_function_value": 60, "asymmetric_parameter_errors": 25, "fixed_untouched": 15},
         "ops": ["do_fit"],
         "reach": ["%s:%s" % a for a in ANCHORS],
-        "strata": ["xy", "indexed", "multi", "iminuit", "scipy", "fixed", "constraint-simple", "constraint-matrix", "correlated-V", "far-start"],
+        "strata": ["xy", "indexed", "multi", "iminuit", "scipy", "fixed", "constraint-simple", "constraint-matrix", "correlated-V", "far-start", "other-unit"],
         "distinct_nontrivial": 40,
     }
 
@@ -69,6 +69,23 @@ def gen_member(rng, ftype, fam, prefix):
             force["shape"] = str(rng.choice(["scalar", "vec", "constvec"]))
         ops.append(gen.gen_source(rng, n, ftype, "%se%d" % (prefix, k), yscale=yscale, force=force, allow_model=False, allow_x=False))
     return {"spec": spec, "setup": ops}
+
+
+def scale_member(mb, s):
+    """express a member's data and absolute uncertainties in another unit (relative sources are unit-free)"""
+    spec = mb["spec"]
+    key = "y" if "y" in spec else "data"
+    spec[key] = [float(v * s) for v in spec[key]]
+    for op in mb["setup"]:
+        a = op[1]
+        if a.get("relative"):
+            continue
+        if op[0] == "add_error":
+            a["err"] = [float(v * s) for v in a["err"]] if isinstance(a["err"], list) else float(a["err"] * s)
+        elif a["matrix_type"] == "cov":
+            a["matrix"] = (np.array(a["matrix"], dtype=float) * s * s).tolist()
+        else:
+            a["err_val"] = [float(v * s) for v in a["err_val"]] if isinstance(a["err_val"], list) else float(a["err_val"] * s)
 
 
 def gen_case(rng, tier, idx, shard, nshards):
@@ -96,9 +113,20 @@ def gen_case(rng, tier, idx, shard, nshards):
         k = int(rng.integers(1, len(names)))
         for i in rng.choice(len(names), size=k, replace=False):
             fixed[names[int(i)]] = float(np.round(defaults[int(i)] * rng.uniform(0.7, 1.3), 4))
+    # the same problem in other units (y, its absolute uncertainties and the linear parameters times s): which code path evaluates the
+    # cost must not depend on the magnitude of the numbers.  iminuit only: the scipy backend's sensitivity to the unit is the recorded
+    # finding C15/scipy-minimizer-stops-short-when-rescaled
+    unit = 1.0
+    if minimizer == "iminuit" and (gi % 5 == 3 or rng.random() < 0.2):
+        unit = float(rng.choice([1e-6, 1e-4, 1e4]))
+        constraints = []
+        for mb in members:
+            scale_member(mb, unit)
+        defaults = [d * unit for d in defaults]
+        fixed = {n: float(v * unit) for n, v in fixed.items()}
     far = bool(rng.random() < 0.3)
-    start = {n: float(np.round(d * (rng.uniform(-30, 30) if far else rng.uniform(0.5, 1.5)) + rng.uniform(-0.5, 0.5), 4)) for n, d in zip(names, defaults) if n not in fixed}
-    return {"property": "C05", "kind": kind, "minimizer": minimizer, "members": members, "constraints": constraints, "fixed": fixed, "start": start, "far_start": far, "asym": bool(minimizer == "iminuit" or rng.random() < (0.1 if tier == "quick" else 1.0))}
+    start = {n: float(np.round(d * (rng.uniform(-30, 30) if far else rng.uniform(0.5, 1.5)) + rng.uniform(-0.5, 0.5) * unit, 4 if unit == 1.0 else 12)) for n, d in zip(names, defaults) if n not in fixed}
+    return {"property": "C05", "unit": unit, "kind": kind, "minimizer": minimizer, "members": members, "constraints": constraints, "fixed": fixed, "start": start, "far_start": far, "asym": bool(minimizer == "iminuit" or rng.random() < (0.1 if tier == "quick" else 1.0))}
 
 
 # ------------------------------------------------------------------ closed form
@@ -199,6 +227,8 @@ def run_case(ctx, case):
         fit.set_parameter_values(**case["start"])
     if case.get("far_start"):
         ctx.stratum("far-start")
+    if case.get("unit", 1.0) != 1.0:
+        ctx.stratum("other-unit")
     # reference
     for mb in members:
         ok, cond = pd_info(mb.ref.total_cov(np.zeros(len(mb.ref.p))))
